@@ -43,7 +43,14 @@ def mobj(st, kind, **kw):
     return oid
 
 
+def touch(st, oid, write=False):
+    fp = st.meta.get('fp')
+    if fp is not None:
+        st.meta['fp'] = fp | {(oid, write)}
+
+
 def mget(st, oid):
+    touch(st, oid, False)
     return st.objs[oid].extra
 
 
@@ -53,6 +60,7 @@ def mset(st, oid, **kw):
     ex.update(kw)
     ex['ver'] = ex.get('ver', 0) + 1
     st.objs[oid] = VAgg(name=o.name, fields=o.fields, extra=ex)
+    touch(st, oid, True)
     # anything blocked on this object becomes runnable
     st.meta['touched'] = st.meta.get('touched', frozenset()) | {oid}
 
@@ -90,6 +98,7 @@ def m_arc_new(e, st, fr, t, args):
 
 
 def arc_inner(st, h):
+    touch(st, h.extra['oid'], False)
     return st.objs[h.extra['oid']]
 
 
@@ -98,6 +107,7 @@ def _arc_set(st, oid, **kw):
     ex = dict(o.extra)
     ex.update(kw)
     st.objs[oid] = VAgg(name=o.name, fields=o.fields, extra=ex)
+    touch(st, oid, True)
     st.meta['touched'] = st.meta.get('touched', frozenset()) | {oid}
 
 
@@ -223,7 +233,13 @@ class Dropper:
             return
         if n.startswith('model:'):
             return
-        # hannibal types with their own Drop impl are handled by the engine hook before fields are dropped
+        # hannibal types with their own Drop impl: run the MIR body first, then the fields
+        from resolver import base_name
+        impl = self.drop_impls.get(base_name(n)) if re.fullmatch(r'[A-Za-z_:<>, ]+', n) else None
+        if impl is not None and hasattr(e, 'sys') and not getattr(self, '_in_impl', False):
+            v = e.sys.run_drop_impl(st, v, impl)
+            if not isinstance(v, VAgg):
+                return
         for k, f in sorted(v.fields.items(), key=lambda kv: str(kv[0])):
             self.drop(st, f, why)
 
@@ -576,6 +592,90 @@ def _drop_shared(d, st, v, why):
 
 
 DROP_MODELS['Shared'] = _drop_shared
+DROP_MODELS['JoinHandle'] = lambda d, st, v, why: None      # tokio: dropping the handle detaches
+DROP_MODELS['AbortHandle'] = lambda d, st, v, why: None
+DROP_MODELS['Abortable'] = lambda d, st, v, why: d.drop(st, v.fields.get(('f', 0)), why)
+
+
+# =========================================================================== async_lock::Mutex / RwLock
+def m_mutex_new(e, st, fr, t, args):
+    oid = st.alloc(VAgg(name='model:lock', fields={('f', 0): args[0]}, extra={'writer': False, 'readers': 0, 'ver': 0}))
+    return handle('AsyncLock', oid)
+
+
+def _lock_obj(e, st, v):
+    v = deref_arg(e, st, v)
+    if is_h(v, 'Arc'):
+        v = st.objs[v.extra['oid']].fields[('f', 0)]
+    if not is_h(v, 'AsyncLock'):
+        return None
+    return v
+
+
+def m_lock_acquire(kind):
+    def h(e, st, fr, t, args):
+        l = _lock_obj(e, st, args[0])
+        if l is None:
+            return NotImplemented
+        return VAgg(name='LockFuture', extra={'oid': l.extra['oid'], 'kind': kind})
+    return h
+
+
+def poll_lock_future(e, st, ref, fut):
+    oid = fut.extra['oid']
+    c = mget(st, oid)
+    kind = fut.extra['kind']
+    free = (not c['writer']) and (kind == 'read' or c['readers'] == 0)
+    if free:
+        if kind == 'read':
+            mset(st, oid, readers=c['readers'] + 1)
+        else:
+            mset(st, oid, writer=True)
+        st.event('lock_acquired', oid, kind)
+        return [(st, ready(VAgg(name='LockGuard', extra={'oid': oid, 'kind': kind})))]
+    block_on(st, oid)
+    return [(st, PENDING)]
+
+
+def m_try_lock(kind):
+    def h(e, st, fr, t, args):
+        l = _lock_obj(e, st, args[0])
+        if l is None:
+            return NotImplemented
+        oid = l.extra['oid']
+        c = mget(st, oid)
+        free = (not c['writer']) and (kind == 'read' or c['readers'] == 0)
+        if not free:
+            st.event('try_lock_failed', oid, kind)
+            return NONE
+        if kind == 'read':
+            mset(st, oid, readers=c['readers'] + 1)
+        else:
+            mset(st, oid, writer=True)
+        st.event('lock_acquired', oid, kind)
+        return some(VAgg(name='LockGuard', extra={'oid': oid, 'kind': kind}))
+    return h
+
+
+def m_guard_deref(e, st, fr, t, args):
+    g = deref_arg(e, st, args[0])
+    if not (isinstance(g, VAgg) and g.name == 'LockGuard'):
+        return NotImplemented
+    return VRef(('obj', g.extra['oid']), (('f', 0),), g.extra['kind'] != 'read')
+
+
+def _drop_guard(d, st, v, why):
+    c = mget(st, v.extra['oid'])
+    if v.extra['kind'] == 'read':
+        mset(st, v.extra['oid'], readers=c['readers'] - 1)
+    else:
+        mset(st, v.extra['oid'], writer=False)
+    st.event('lock_released', v.extra['oid'], v.extra['kind'])
+
+
+DROP_MODELS['LockGuard'] = _drop_guard
+DROP_MODELS['AsyncLock'] = lambda d, st, v, why: d.drop(st, st.objs[v.extra['oid']].fields.get(('f', 0)), why)
+DROP_MODELS['LockFuture'] = lambda d, st, v, why: None
 
 
 # =========================================================================== abortable
@@ -750,6 +850,17 @@ def m_option_cloned_addr(e, st, fr, t, args):
     return NotImplemented
 
 
+def m_option_ok_or(e, st, fr, t, args):
+    o, er = args
+    d = e.concrete_int(st, e.discriminant_of(st, o))
+    if d is None:
+        raise Unsupported("Option::ok_or symbolic")
+    if d == 1:
+        e.dropper.drop(st, er, 'unused ok_or error')
+        return ok(e.get_field(o, ('v', 'Some', 0)))
+    return err(er)
+
+
 def m_result_ok(e, st, fr, t, args):
     r = args[0]
     d = e.concrete_int(st, e.discriminant_of(st, r))
@@ -775,6 +886,16 @@ def m_result_map_err(e, st, fr, t, args):
 
 
 def builtin_fn_item(e, st, text, args):
+    t = strip_generics(text)
+    if t.endswith('Result::ok'):
+        r = args[0]
+        d = e.concrete_int(st, e.discriminant_of(st, r))
+        if d is None:
+            raise Unsupported("Result::ok on symbolic result")
+        if d == 0:
+            return some(e.get_field(r, ('v', 'Ok', 0)))
+        e.dropper.drop(st, e.get_field(r, ('v', 'Err', 0)), 'Result::ok discards error')
+        return NONE
     return NotImplemented
 
 
@@ -846,8 +967,15 @@ def install(eng: Engine, resolver):
     add(r' as FutureExt>::now_or_never$', m_now_or_never)
     add(r'^<Shared<.*> as Clone>::clone$', m_shared_clone)
     add(r'^Shared::<.*>::peek$', m_shared_peek)
+    add(r'^async_lock::(Mutex|RwLock)::<.*>::new$', m_mutex_new)
+    add(r'^async_lock::Mutex::<.*>::lock$', m_lock_acquire('write'))
+    add(r'^async_lock::RwLock::<.*>::write$', m_lock_acquire('write'))
+    add(r'^async_lock::RwLock::<.*>::read$', m_lock_acquire('read'))
+    add(r'^async_lock::RwLock::<.*>::try_read$', m_try_lock('read'))
+    add(r'^async_lock::RwLock::<.*>::try_write$|^async_lock::Mutex::<.*>::try_lock$', m_try_lock('write'))
+    add(r'^<async_lock::(Mutex|RwLockWrite|RwLockRead)Guard<.*> as Deref(Mut)?>::deref(_mut)?$', m_guard_deref)
     add(r'^futures::future::abortable::<', m_abortable)
-    add(r'^AbortHandle::abort$', m_abort)
+    add(r'AbortHandle::abort$', m_abort)
     add(r'^Vec::<.*>::new$', m_vec_new)
     add(r'^<Vec<.*> as Default>::default$', m_vec_new)
     add(r'^Vec::<.*>::push$', m_vec_push)
@@ -860,5 +988,6 @@ def install(eng: Engine, resolver):
     add(r'^Option::<.*>::is_some$', m_option_is_some)
     add(r'^Option::<.*>::is_none$', m_option_is_none)
     add(r'^Option::<.*>::as_ref$', m_option_as_ref)
+    add(r'^Option::<.*>::ok_or::<', m_option_ok_or)
     add(r'^std::result::Result::<.*>::ok$', m_result_ok)
     add(r'^std::result::Result::<.*>::map_err::<', m_result_map_err)
